@@ -152,6 +152,30 @@ class BaseHdlcFrame(_AbstractHdlcFrame):
         """
         return fields.DlmsHdlcFrameFormatField.from_bytes(frame_bytes[1:3])
 
+    @staticmethod
+    def validate_check_sequences(
+        frame_bytes: bytes, hcs_position: Optional[int] = None
+    ) -> None:
+        """
+        The check sequences are calculated over the received bytes so that every bit
+        between the flags is covered by them, not only the parts that are carried
+        over into the parsed frame.
+        """
+        if hcs_position is not None:
+            hcs = frame_bytes[hcs_position : hcs_position + 2]
+            calculated_hcs = HCS.calculate_for(frame_bytes[1:hcs_position])
+            if hcs != calculated_hcs:
+                raise hdlc_exceptions.HdlcParsingError(
+                    f"HCS is not correct. Calculated: {calculated_hcs!r}, "
+                    f"in data: {hcs!r}"
+                )
+        fcs = frame_bytes[-3:-1]
+        calculated_fcs = FCS.calculate_for(frame_bytes[1:-3])
+        if fcs != calculated_fcs:
+            raise hdlc_exceptions.HdlcParsingError(
+                f"FCS is not correct, Calculated: {calculated_fcs!r}, in data: {fcs!r}"
+            )
+
 
 @attr.s(auto_attribs=True)
 class SetNormalResponseModeFrame(BaseHdlcFrame):
@@ -225,22 +249,21 @@ class UnNumberedAcknowledgmentFrame(BaseHdlcFrame):
         source_address = address.HdlcAddress.source_from_bytes(frame_bytes, "server")
 
         hcs_position = 1 + 2 + destination_address.length + source_address.length + 1
-        hcs = frame_bytes[hcs_position : hcs_position + 2]
-        fcs = frame_bytes[-3:-1]
+        control_byte = frame_bytes[hcs_position - 1 : hcs_position]
+        if control_byte != fields.UaControlField().to_bytes():
+            raise hdlc_exceptions.HdlcParsingError(
+                f"Control field {control_byte!r} is not the control field of a UA frame"
+            )
+        BaseHdlcFrame.validate_check_sequences(frame_bytes, hcs_position)
 
         information = frame_bytes[hcs_position + 2 : -3]
 
-        frame = cls(destination_address, source_address, information)
-
-        if hcs != frame.hcs:
-            raise hdlc_exceptions.HdlcParsingError(
-                f"HCS is not correct. " f"Calculated: {frame.hcs!r}, in data: {hcs!r}"
-            )
-
-        if fcs != frame.fcs:
-            raise hdlc_exceptions.HdlcParsingError("FCS is not correct")
-
-        return frame
+        return cls(
+            destination_address,
+            source_address,
+            information,
+            segmented=frame_format.segmented,
+        )
 
 
 @attr.s(auto_attribs=True)
@@ -290,19 +313,15 @@ class ReceiveReadyFrame(BaseHdlcFrame):
         )
         control_byte = frame_bytes[control_byte_position : control_byte_position + 1]
         control = fields.ReceiveReadyControlField.from_bytes(control_byte)
-        fcs = frame_bytes[-3:-1]
+        BaseHdlcFrame.validate_check_sequences(frame_bytes)
 
-        frame = cls(
+        return cls(
             destination_address=destination_address,
             source_address=source_address,
             receive_sequence_number=control.receive_sequence_number,
-            final=control.is_final,
+            segmented=frame_format.segmented,
+            final=control.is_final(),
         )
-
-        if fcs != frame.fcs:
-            raise hdlc_exceptions.HdlcParsingError("FCS is not correct")
-
-        return frame
 
 
 @attr.s(auto_attribs=True)
@@ -363,11 +382,10 @@ class InformationFrame(BaseHdlcFrame):
         )
 
         hcs_position = 1 + 2 + destination_address.length + source_address.length + 1
-        hcs = frame_bytes[hcs_position : hcs_position + 2]
-        fcs = frame_bytes[-3:-1]
+        BaseHdlcFrame.validate_check_sequences(frame_bytes, hcs_position)
         information = frame_bytes[hcs_position + 2 : -3]
 
-        frame = cls(
+        return cls(
             destination_address,
             source_address,
             information,
@@ -376,18 +394,6 @@ class InformationFrame(BaseHdlcFrame):
             segmented=frame_format.segmented,
             final=information_control.final,
         )
-
-        if hcs != frame.hcs:
-            raise hdlc_exceptions.HdlcParsingError(
-                f"HCS is not correct Calculated: {frame.hcs!r}, in data: {hcs!r}"
-            )
-
-        if fcs != frame.fcs:
-            raise hdlc_exceptions.HdlcParsingError(
-                f"FCS is not correct, Calculated: {frame.fcs!r}, in data: {fcs!r}"
-            )
-
-        return frame
 
 
 @attr.s(auto_attribs=True)
@@ -429,14 +435,19 @@ class DisconnectFrame(BaseHdlcFrame):
 
         source_address = address.HdlcAddress.source_from_bytes(frame_bytes, "client")
 
-        fcs = frame_bytes[-3:-1]
+        control_byte_position = (
+            1 + 2 + destination_address.length + source_address.length
+        )
+        control_byte = frame_bytes[control_byte_position : control_byte_position + 1]
+        if control_byte != fields.DisconnectControlField().to_bytes():
+            raise hdlc_exceptions.HdlcParsingError(
+                f"Control field {control_byte!r} is not the control field of a DISC frame"
+            )
+        BaseHdlcFrame.validate_check_sequences(frame_bytes)
 
-        frame = cls(destination_address, source_address)
-
-        if fcs != frame.fcs:
-            raise hdlc_exceptions.HdlcParsingError("FCS is not correct")
-
-        return frame
+        return cls(
+            destination_address, source_address, segmented=frame_format.segmented
+        )
 
 
 @attr.s(auto_attribs=True)
@@ -486,26 +497,13 @@ class UnnumberedInformationFrame(BaseHdlcFrame):
         )
 
         hcs_position = 1 + 2 + destination_address.length + source_address.length + 1
-        hcs = frame_bytes[hcs_position : hcs_position + 2]
-        fcs = frame_bytes[-3:-1]
+        BaseHdlcFrame.validate_check_sequences(frame_bytes, hcs_position)
         information = frame_bytes[hcs_position + 2 : -3]
 
-        frame = cls(
+        return cls(
             destination_address,
             source_address,
             information,
             segmented=frame_format.segmented,
             final=information_control.final,
         )
-
-        if hcs != frame.hcs:
-            raise hdlc_exceptions.HdlcParsingError(
-                f"HCS is not correct Calculated: {frame.hcs!r}, in data: {hcs!r}"
-            )
-
-        if fcs != frame.fcs:
-            raise hdlc_exceptions.HdlcParsingError(
-                f"FCS is not correct, Calculated: {frame.fcs!r}, in data: {fcs!r}"
-            )
-
-        return frame
